@@ -217,7 +217,7 @@ func buildAnko(tmp string) (string, error) {
 
 type violation struct {
 	fw.Replay
-	Hi    int    `json:"hi,omitempty"`
+	Hi    int `json:"hi,omitempty"`
 	known *fw.Finding
 	path  string
 }
@@ -369,7 +369,22 @@ var companyProps = map[string]bool{"C03": true, "C04": true, "C05": true, "C06":
 const companySuffix = "+company"
 
 func deriveCompany(p *fw.Plan, prop, tier string) {
-	if !companyProps[prop] || os.Getenv("VERIF_NO_COMPANY") != "" {
+	if os.Getenv("VERIF_NO_COMPANY") != "" {
+		return
+	}
+	if prop == "C14" {
+		// "executions share no hidden mutable state": the battery alone, eight executions at a time in
+		// environments and trees of their own, judged by its own checks (plain build) and by the race
+		// detector (race build: any report with an anko frame is two executions touching one location)
+		n, nr := 24, 8
+		if tier == "thorough" {
+			n, nr = 400, 120
+		}
+		p.Phases = append(p.Phases, fw.Phase{Name: "company-only", Cases: n, Chunk: 6, Jobs: 4, TimeoutS: 600},
+			fw.Phase{Name: "company-only-race", Race: true, Cases: nr, Chunk: 2, Jobs: 4, TimeoutS: 900})
+		return
+	}
+	if !companyProps[prop] {
 		return
 	}
 	var add []fw.Phase
